@@ -58,7 +58,7 @@ def check(run, opts):
         out.append((key, '%s at action %d (%s: %s) under %s %s' % (msg, ev.idx, ev.tag, ev.msg, rule, cfg.describe()), dict(action=ev.idx)))
 
     # ---- (a) quota formula
-    integer = rule in ('scotland', 'mpls') or (rule == 'wigm' and bool(E.rule.integer_quota))
+    integer = rule in ('scotland', 'mpls') or (rule == 'wigm' and bool(opts.get('integer_quota')))       # as requested, not as understood
     if snaps:
         rq = run.E.erecord.get('quota')
         from ..harness import raw
